@@ -4,7 +4,7 @@
    conformance harness: operands, predicted result / flag / branch path of the algorithm layer and the
    semantic class.  Sample: every state whose salt hits the stride, plus (own stride) the states on the
    tie / cancellation / far-apart classes. *)
-EXTENDS FloatAdd, Json
+EXTENDS FloatAdd, Json, TLC
 CONSTANTS Stride, RareStride, Seed
 
 ModeNo == CASE mode = "Zero" -> 0 [] mode = "Away" -> 1 [] mode = "Up" -> 2 [] mode = "Down" -> 3
